@@ -529,8 +529,22 @@ def run(ctx, host=None):
     feeds = set()
     if diffs:
         arg = diffs[0].ast.args[0] if diffs[0].ast.args else None
+        feed_fn = g.fn
+        # the list may come from a private helper (`existing = self._helper(...)`, which returns its accumulator): look at the feeds there
+        for _ in range(2):
+            src = arg
+            if isinstance(arg, ast.Name):
+                asg = [a for a in walk_local(feed_fn.node) if isinstance(a, ast.Assign) and len(a.targets) == 1 and isinstance(a.targets[0], ast.Name) and a.targets[0].id == arg.id]
+                src = asg[0].value if len(asg) == 1 else None
+            if isinstance(src, ast.Call) and isinstance(src.func, ast.Attribute) and norm(src.func.value) == 'self' and src.func.attr in K.container.methods:
+                h = K.container.methods[src.func.attr]
+                rets = [r for r in walk_local(h.node) if isinstance(r, ast.Return)]
+                if len(rets) == 1 and isinstance(rets[0].value, ast.Name):
+                    feed_fn, arg = h, rets[0].value
+                    continue
+            break
         if isinstance(arg, ast.Name):
-            for n in walk_local(g.fn.node):
+            for n in walk_local(feed_fn.node):
                 if isinstance(n, ast.Call) and isinstance(n.func, ast.Attribute) and n.func.attr in ('append', 'add') and isinstance(n.func.value, ast.Name) and n.func.value.id == arg.id:
                     br = n
                     while br is not None and not (isinstance(br, ast.If) and 'len(' in norm(br.test)):
